@@ -9,6 +9,7 @@ import Q1t.Proofs.SimGFPeek
 import Q1t.Proofs.SimGFStab
 import Q1t.Proofs.SimGFStabExample
 import Q1t.Proofs.SimGFStabQ8
+import Q1t.Proofs.DetShapeAll
 /-!
 # C01 — shot histograms are exact Born-rule samples of the circuit
 
@@ -208,6 +209,20 @@ theorem stab_histogram_gf_generated {R : Type} [CommRing R] (n N : Nat)
         (StabState.new n N) (List.replicate N 0) ops)
       (shotProdS x) = gfShot n toR x ops (SimGF.ket0 n, 0) ^ N :=
   stab_histogram_gf_generated' n N hD ord toR x ops hF hN
+
+attribute [-instance] Q1t.Sim.Witness.simAmpQ8 in
+attribute [local instance] Q1t.Sim.Demo.simAmpQ8 in
+/-- **The law on the stabilizer backend for the generated tables, no hypothesis left**: `DetShapeHolds` is proved by
+C03 (`Q1t.Props.C03.det_shape_holds`, `Proofs/DetShapeAll.lean`), so `stab_histogram_gf_generated` holds for all `n`,
+all `N ≥ 1`, all circuits of F_stab over valid claiming Clifford terms, every ring `R`, every `x`. -/
+theorem stab_histogram_gf_generated_unconditional {R : Type} [CommRing R] (n N : Nat)
+    (ord : List (Nat × Nat) → List (Nat × Nat)) (toR : Q8 →+* R) (x : Nat → R) (ops : List (COp Empty))
+    (hF : ∀ op ∈ ops, InFS n (Q1t.Proofs.TabG.validT (A := Empty) n Q1t.Gen.conjTable) op) (hN : 0 < N) :
+    expectOrd ord toR (execOps (stabBackend SimGF.q8half Q1t.Gen.phaseTable
+        (Q1t.Proofs.TabG.conjOfT (A := Empty) Q1t.Gen.conjTable Q1t.Gen.conjNoArityCheck))
+        (StabState.new n N) (List.replicate N 0) ops)
+      (shotProdS x) = gfShot n toR x ops (SimGF.ket0 n, 0) ^ N :=
+  stab_histogram_gf_generated n N (Q1t.Proofs.DetPlan.detShapeHolds_generated n) ord toR x ops hF hN
 
 /-! ## non-vacuity -/
 
